@@ -9,6 +9,13 @@
 (*        one request, the answer, the projected ledger after it             *)
 (*        (`rt` = the exchange time the response of an accepted order       *)
 (*        carries, -1 otherwise)                                             *)
+(*   "out":"lost" (with "drop" > 0): an open-order request whose requester   *)
+(*        stopped waiting before the exchange handled it.  The answer is not  *)
+(*        observable, but it is still an OpenOrder: whether it is accepted is *)
+(*        what the spec says, and ledger, fill, id and notifications must be  *)
+(*        exactly those of an answered request (the observable effects of a   *)
+(*        request do not depend on whether its response is consumed).  The id *)
+(*        and the clock reading are read off the fill it has to leave.        *)
 (* Amounts are integers in 1/100 units, times in ms.                         *)
 (* A line that is not a step of the spec is recorded in `bad` together with  *)
 (* the names of the clauses of C08 it breaks (`why`), and the logged state   *)
@@ -28,6 +35,16 @@ ReqOf(x) == Req(x.a, x.t, x.side, x.p, x.q, x.instr, x.kind, x.since)
 \* the exchange clock is observable only through accepted orders (the response and the fill
 \* carry it); otherwise any admissible reading will do - take the code's
 ClockOf(x) == IF x.out = "ok" THEN x.rt ELSE NowAfter(ReqOf(x))
+
+\* a line whose answer nobody read, completed with the answer the specification gives
+Eff(x) == IF x.out # "lost" THEN x
+          ELSE LET pt == x.post.trades
+                   \* no fill left behind: id and clock stay unobserved (any admissible value)
+                   f  == IF Len(pt) = Len(trades) + 1 THEN pt[Len(pt)]
+                         ELSE [NoFill EXCEPT !.id = nextId, !.t = NowAfter(ReqOf(x))]
+               IN IF Accepts(ReqOf(x))
+                  THEN [x EXCEPT !.out = "ok", !.id = f.id, !.filled = x.q, !.rt = f.t]
+                  ELSE [x EXCEPT !.out = "rej"]
 
 ResetResp == Resp([NoReq EXCEPT !.op = "Reset"], "init", "-", -1, 0)
 
@@ -83,7 +100,7 @@ Checks(x) ==
                           /\ r.op = "trades"   => x.res.trades = TradesSince(r.since),
        OpenUnchanged |-> SetOf(x.post.open) = open ]
 
-Failing(x) == {n \in DOMAIN Checks(x) : ~Checks(x)[n]}
+Failing(y) == LET x == Eff(y) IN {n \in DOMAIN Checks(x) : ~Checks(x)[n]}
 StepOK(x)  == Failing(x) = {}
 
 \* what the log shows of the step, against the spec's own action
@@ -99,16 +116,17 @@ Observed(x) == /\ bal' = BalOf(x.post.bal)
 
 TStepOK == /\ Rec[l].a # "Reset"
            /\ StepOK(Rec[l])
-           /\ Serve(ReqOf(Rec[l]), Rec[l].id, ClockOf(Rec[l]))   \* the spec's own action
-           /\ Observed(Rec[l])
+           /\ Serve(ReqOf(Rec[l]), Eff(Rec[l]).id, ClockOf(Eff(Rec[l])))   \* the spec's own action
+           /\ Observed(Eff(Rec[l]))
            /\ UNCHANGED <<bad, why>>
 
 TStepBad == /\ Rec[l].a # "Reset"
             /\ ~StepOK(Rec[l])
             /\ Adopt(Rec[l])
-            /\ nextId' = IF Rec[l].out = "ok" /\ Rec[l].id >= nextId THEN Rec[l].id + 1 ELSE nextId
-            /\ now' = ClockOf(Rec[l])
-            /\ last' = Resp(ReqOf(Rec[l]), Rec[l].out, "-", Rec[l].id, Rec[l].filled)
+            /\ LET e == Eff(Rec[l]) IN
+                 /\ nextId' = IF e.out = "ok" /\ e.id >= nextId THEN e.id + 1 ELSE nextId
+                 /\ now' = IF e.out = "ok" /\ e.rt \in ClockChoices(ReqOf(e)) THEN e.rt ELSE NowAfter(ReqOf(e))
+                 /\ last' = Resp(ReqOf(e), e.out, "-", e.id, e.filled)
             /\ res' = NoRes
             /\ UNCHANGED world
             /\ bad' = Append(bad, l)
